@@ -48,6 +48,27 @@ func c01FirstPassDefers(c *Ctx) {
 	for _, code := range retriableProduceCodes {
 		k := p.ErrVal(code)
 		edges := reg.EstablishingEdges(Cmp{token.EQL, errF, k})
+		if len(edges) == 0 {
+			// the case list lives in a predicate literal (`case isRetriable(block.Err):` inlined back): the true edge
+			// of the branch on that literal is the edge on which the code is one of the listed ones
+			if kv, okc := p.ConstNamed(code); okc {
+				cases := constCases(first, errF)
+				for _, b := range first.Blocks {
+					iff, isIf := lastInstr(b).(*ssa.If)
+					if !isIf || len(b.Succs) != 2 {
+						continue
+					}
+					if cl, isCall := iff.Cond.(*ssa.Call); !isCall || iifeCallee(cl) == nil {
+						continue
+					}
+					for _, have := range cases[b.Succs[0]] {
+						if have == kv {
+							edges = append(edges, Edge{From: b, To: b.Succs[0]})
+						}
+					}
+				}
+			}
+		}
 		for _, e := range edges {
 			n++
 			r := *reg.From(Pt{e.To, 0})
